@@ -21,6 +21,34 @@
 namespace dispenso {
 namespace detail {
 
+// OnceFunction does not destroy its type-erased functor unless it is invoked.  A ConcurrentTaskSet
+// that has been cancelled (e.g. by an exception in another stage) skips the tasks it is handed
+// without invoking them, which would leak a queued item's closure (and the item it owns).  This
+// wrapper invokes the function at most once and releases its resources if it is dropped uninvoked.
+class RunOrCleanup {
+ public:
+  explicit RunOrCleanup(OnceFunction&& f) : func_(std::move(f)) {}
+  RunOrCleanup(RunOrCleanup&& other) noexcept : func_(std::move(other.func_)), owns_(other.owns_) {
+    other.owns_ = false;
+  }
+  RunOrCleanup(const RunOrCleanup&) = delete;
+  RunOrCleanup& operator=(const RunOrCleanup&) = delete;
+  RunOrCleanup& operator=(RunOrCleanup&&) = delete;
+  ~RunOrCleanup() {
+    if (owns_) {
+      func_.cleanupNotRun();
+    }
+  }
+  void operator()() {
+    owns_ = false;
+    func_();
+  }
+
+ private:
+  OnceFunction func_;
+  bool owns_{true};
+};
+
 class LimitGatedScheduler {
  public:
   LimitGatedScheduler(ConcurrentTaskSet& tasks, ssize_t res)
@@ -44,6 +72,15 @@ class LimitGatedScheduler {
           resources_(res),
           unlimited_(res == std::numeric_limits<ssize_t>::max()),
           serial_(res == 1) {}
+
+    // Items still queued when the pipeline is torn down (only possible after an exception) are
+    // never going to run: release them.
+    ~Impl() {
+      OnceFunction leftover;
+      while (queue_.try_dequeue(leftover)) {
+        leftover.cleanupNotRun();
+      }
+    }
 
     template <typename F>
     void schedule(F&& fPipe) {
@@ -118,11 +155,11 @@ class LimitGatedScheduler {
                   func();
                 } else {
                   DISPENSO_VERIF_POINT("PlCbSubmit", this);
-                  tasks_.schedule(std::move(func), ForceQueuingTag());
+                  tasks_.schedule(RunOrCleanup(std::move(func)), ForceQueuingTag());
                 }
               } else {
                 DISPENSO_VERIF_POINT("PlCbSubmit", this);
-                tasks_.schedule(std::move(func));
+                tasks_.schedule(RunOrCleanup(std::move(func)));
               }
             } else {
               DISPENSO_VERIF_POINT("PlCbRel", this);
@@ -147,7 +184,7 @@ class LimitGatedScheduler {
         DISPENSO_TSAN_ANNOTATE_IGNORE_WRITES_END();
         if (deqd) {
           DISPENSO_VERIF_POINT("PlSchSubmit", this);
-          tasks_.schedule(std::move(func));
+          tasks_.schedule(RunOrCleanup(std::move(func)));
           DISPENSO_VERIF_POINT("PlSchAcq", this);
         } else {
           break;
@@ -207,7 +244,7 @@ class LimitGatedScheduler {
               DISPENSO_VERIF_POINT("PlWtAcq", this);
             }
             DISPENSO_VERIF_POINT("PlWtSubmit", this);
-            tasks_.schedule(std::move(func));
+            tasks_.schedule(RunOrCleanup(std::move(func)));
           next_item:;
           } else if (!tasks_.tryExecuteNext()) {
             std::this_thread::yield();
@@ -250,7 +287,7 @@ class LimitGatedScheduler {
             DISPENSO_VERIF_POINT("PlWuAcq", this);
           }
           DISPENSO_VERIF_POINT("PlWuSubmit", this);
-          tasks_.schedule(std::move(func));
+          tasks_.schedule(RunOrCleanup(std::move(func)));
         } else if (!tasks_.tryExecuteNext()) {
           std::this_thread::yield();
         }
